@@ -118,6 +118,11 @@ func GenPipe(r *rand.Rand, o PipeOpts, useArg bool) *Pipe {
 		case "cross":
 			if r.IntN(2) == 0 {
 				// the pipeline so far is the second list: cross runs through it again for every item of the first
+				// (half of the time the list that is run through again is the result of a merge, whose sources
+				// are fed by goroutines that are started and stopped per run)
+				if r.IntN(2) == 0 {
+					cur = ref.Method(cur, "merge", ref.ListN(ref.Int(1), ref.Int(5), ref.Int(9)), ref.Clo([]string{"m" + a, "m" + b}, ref.Bin("<", id("m"+a), id("m"+b))))
+				}
 				cur = ref.Method(ref.ListN(ref.Int(1), ref.Int(2), ref.Int(3)), "cross", cur, ref.Clo([]string{b, a}, ref.Bin("+", ref.Bin("*", id(b), ref.Int(1000)), wrap(id(a)))))
 			} else {
 				cur = ref.Method(cur, "cross", ref.ListN(ref.Int(1), ref.Int(2)), ref.Clo([]string{a, b}, ref.Bin("*", wrap(id(a)), id(b))))
